@@ -617,3 +617,44 @@ func dialerConfigNotSwapped(c *Ctx, rule string) {
 	}
 	c.R.Check(rule, shortFn(d.dial), "backend-config-is-the-callers", d.dial.Pos(), ok, why)
 }
+
+// proxyHonoured: the URL the Proxy function returned is the one handed to
+// netDialFn: between the two calls DialContext does not replace it (a proxy
+// the application configured is never silently bypassed).
+func proxyHonoured(c *Ctx, rule string) {
+	d := newDialA(c)
+	netDialFn := c.fn("(*Dialer).netDialFn")
+	proxyF := c.P.Field("Dialer", "Proxy")
+	var site *ssa.Call
+	for _, b := range d.dial.Blocks {
+		for _, in := range b.Instrs {
+			call, ok := in.(*ssa.Call)
+			if !ok || call.Call.IsInvoke() {
+				continue
+			}
+			if u, isU := call.Call.Value.(*ssa.UnOp); isU {
+				if fa, isFA := u.X.(*ssa.FieldAddr); isFA && fieldOf(fa) == proxyF {
+					site = call
+				}
+			}
+		}
+	}
+	if site == nil {
+		c.R.Fail(rule, shortFn(d.dial), "proxy-call", d.dial.Pos(), "the call of Dialer.Proxy was not found in DialContext")
+		return
+	}
+	ok, why := true, "netDialFn receives the URL Dialer.Proxy returned"
+	n := 0
+	c.explore(rule, d.dial, core.Opts{Start: site, Unroll: 0, NonNilOnNilErr: true, Stop: func(x *core.Explorer, ev *core.Event) bool { return callsStatic(ev, netDialFn) }}, func(p *core.Path) {
+		if p.End != core.EndStop {
+			return
+		}
+		n++
+		ev := &p.Events[len(p.Events)-1]
+		want := p.X.ExtractOf(p.X.OpaqueOf(site), 0, nil)
+		if len(ev.Args) < 3 || strip(ev.Args[2]) != want {
+			ok, why = false, "a path from the Proxy call to netDialFn at "+c.P.Pos(ev.Instr.Pos())+" passes "+ev.Args[2].String()+" instead of the URL the Proxy function returned: the configured proxy is bypassed"
+		}
+	})
+	c.R.Check(rule, shortFn(d.dial), "proxy-url-passed-unchanged", d.dial.Pos(), ok && n > 0, why)
+}
